@@ -1,11 +1,27 @@
 (* Executable correspondence + monitor for C07 window cases. *)
-From Verif Require Import Base.CaseCheck Dlq.Window.
+From Verif Require Import Base.CaseCheck Dlq.Window Dlq.Routing.
 
 Inductive wcase :=
 | W1 (size thr : nat) (ops : list bool) (observed : list bool)
-| W2 (size thr : nat) (chunks : list (bool * nat)) (observed : list bool).
+| W2 (size thr : nat) (chunks : list (bool * nat)) (observed : list bool)
+(* routing: records (rejected?, dlq write fails?), observed events, observed (stopped, fatal) *)
+| R1 (size thr : nat) (rs : list rec) (es : list ev) (stopped fatal : bool)
+| R2 (size thr : nat) (batches : list (list rec)) (es : list ev) (stopped fatal : bool).
 
 Definition beq := Bool.eqb.
+
+Definition ev_eqb (a b : ev) : bool :=
+  match a, b with
+  | DlqOk i, DlqOk j => Nat.eqb i j
+  | SrcAck i, SrcAck j => Nat.eqb i j
+  | _, _ => false
+  end.
+Definition ev_list_eqb := list_eqb ev_eqb.
+Definition term_eqb (tm : term) (stopped fatal : bool) : bool :=
+  match tm with
+  | None => negb stopped
+  | Some f => stopped && Bool.eqb f fatal
+  end.
 
 Definition chk (c : wcase) : nat :=
   match c with
@@ -15,4 +31,12 @@ Definition chk (c : wcase) : nat :=
   | W2 size t cs obs =>
       code (list_eqb beq (run_v2 (new_win size t) cs) obs)
            (list_eqb beq (run_spec size t init_sp (expand cs)) obs)
+  | R1 size t rs es stopped fatal =>
+      let (mes, mtm) := route_v1 (new_win size t) false 0 rs in
+      code (ev_list_eqb mes es && term_eqb mtm stopped fatal)
+           (route_ok size t rs es stopped)
+  | R2 size t bs es stopped fatal =>
+      let (mes, mtm) := route_v2 (new_win size t) 0 bs in
+      code (ev_list_eqb mes es && term_eqb mtm stopped fatal)
+           (route_ok size t (concat bs) es stopped)
   end.
